@@ -463,7 +463,7 @@ func Run(r *mc.Run) {
 				doc, dmg := treeDoc(&dev{x: x, firstPoint: sh.firstPoint, firstAlt: sh.firstAlt}, sh.n)
 				in := In{Doc: doc, API: sh.api, Delivery: sh.del, Damage: dmg}
 				st.Nontrivial++
-				record(st, "model-tree", in, x.Deviations() == bound && (cnt+si)%499 == 0)
+				record(st, "model-tree", in, (si == 7 || si == len(shards)/2 || si == len(shards)-40) && cnt == 3)
 			})
 			if div != "" {
 				r.HarnessError("model-tree: %s", div)
@@ -497,7 +497,7 @@ func Run(r *mc.Run) {
 			for _, a := range apis {
 				for _, dmg := range []string{"", "no-final-newline"} {
 					st.Nontrivial++
-					record(st, "one-entry-product", In{Doc: mkDoc([]Pick{picks[i]}, 0, nil, 0), API: a, Delivery: "whole", Damage: dmg}, i%509 == 3)
+					record(st, "one-entry-product", In{Doc: mkDoc([]Pick{picks[i]}, 0, nil, 0), API: a, Delivery: "whole", Damage: dmg}, i == 2917 && a == "ParseOne")
 				}
 			}
 			return true
@@ -523,7 +523,7 @@ func Run(r *mc.Run) {
 						if p > lay.Start[0] {
 							st.Nontrivial++
 						}
-						record(st, "every-prefix", In{Doc: docs[di], API: a, Delivery: del, Damage: "prefix", Pos: p}, p%131 == 77)
+						record(st, "every-prefix", In{Doc: docs[di], API: a, Delivery: del, Damage: "prefix", Pos: p}, (di == 1 || di == 4) && a == "Parse" && del == "whole" && (p == lay.End[0]+lay.Start[0] || p == lay.TrailerNL[1]))
 					}
 				}
 			}
@@ -535,7 +535,7 @@ func Run(r *mc.Run) {
 			for p := 0; p < len(text); p++ {
 				for _, a := range apis {
 					st.Nontrivial++
-					record(st, "every-deletion", In{Doc: docs[di], API: a, Delivery: "whole", Damage: "delete", Pos: p}, p%211 == 100)
+					record(st, "every-deletion", In{Doc: docs[di], API: a, Delivery: "whole", Damage: "delete", Pos: p}, di == 2 && a == "Parse" && (p == 100 || p == 333))
 				}
 			}
 			return true
@@ -568,7 +568,7 @@ func Run(r *mc.Run) {
 				for _, p := range positions {
 					for _, a := range apis {
 						st.Nontrivial++
-						record(st, "every-substitution", In{Doc: docs[di], API: a, Delivery: "whole", Damage: "subst", Pos: p, Rule: ru.Name}, p%97 == 5)
+						record(st, "every-substitution", In{Doc: docs[di], API: a, Delivery: "whole", Damage: "subst", Pos: p, Rule: ru.Name}, di == 3 && a == "ParseOne" && (ru.Name == "date-zone-with-colon" || ru.Name == "semicolon-to-comma") && p == positions[len(positions)-1])
 					}
 				}
 			}
